@@ -141,6 +141,17 @@ pub fn gen(tier: &str, seed: u64, out: &mut dyn Write) {
     for pre in [0u32, 2, 5] {
         emit(out, &scratch, &format!("rich=31 load=1 stores=3 sabot=0 kinds=0 pre={} craft=0 e=", pre));
     }
+    // round 5: "present but empty" inner values of font info (every Option<Vec> field set to Some(empty) through the API),
+    // a layer lib filled and emptied; fonts WITHOUT other font info so that nothing else keeps fontinfo.plist non-empty
+    for n in 0..10 {
+        for load in 0..2 {
+            for &(rich, pre) in &[(0u32, 0u32), (1, 2), (29, 5 * load)] {
+                emit(out, &scratch, &format!("rich={} load={} stores=0 sabot=0 kinds=0 pre={} craft=0 e=ie.{}", rich, load, pre, n));
+            }
+        }
+    }
+    emit(out, &scratch, &format!("rich=0 load=0 stores=0 sabot=0 kinds=0 pre=2 craft=0 e=ie.0,ie.2,ie.5,lx.{}", hexs("public.default")));
+    emit(out, &scratch, &format!("rich=0 load=1 stores=0 sabot=0 kinds=0 pre=5 craft=0 e=lx.{},lx.{}", hexs("fresh"), hexs("public.default")));
     // other entry points, other spellings of the target, fonts from partial loads (phase 3 review)
     for wo in 1..=2 {
         for pre in 0..6 {
